@@ -489,7 +489,7 @@ fn run_start(dirs: Vec<Dir>) {
     };
     start(&mut tasks, 0);
     let mut dirs = dirs.into_iter().peekable();
-    let mut fuel = 10_000;
+    let mut fuel = 400;
     loop {
         fuel -= 1;
         if fuel == 0 {
@@ -642,7 +642,11 @@ fn on_wait(set: u32) {
 }
 
 fn run_block() {
-    host::HOST.with(|h| h.borrow_mut().on_wait = Some(on_wait));
+    host::HOST.with(|h| {
+        let mut h = h.borrow_mut();
+        h.on_wait = Some(on_wait);
+        h.poll_budget = Some(400);
+    });
     match make_body(0, true) {
         None => ev("S0:skip"),
         Some(f) => {
@@ -665,7 +669,7 @@ fn run(s: &Script) {
         sh.calls = calls.iter().map(|c| *c as usize).collect();
         sh.used = vec![false; calls.len()];
         sh.dirs = if s.driver == Driver::Block { s.dirs.clone() } else { Vec::new() };
-        sh.fuel = 10_000;
+        sh.fuel = 400;
     });
     let r = std::panic::catch_unwind(std::panic::AssertUnwindSafe(|| match s.driver {
         Driver::Start => run_start(s.dirs.clone()),
